@@ -341,3 +341,30 @@ def ml_return_spelling(r, incl, sep):
 @spec()
 def ml_pair_second_name(t2, sep, incl):
     return ml_type_name(t2.typename, sep, incl, False, False) if isinstance(t2, Type) else ''
+
+
+# ---------------------------------------------------------------- C06: the .m gateway of a free function
+@spec(rec=True, ret='str', reads='tree')
+def ml_function_branches(module_name, overloads, k, id0):
+    """one branch per overload (arity), in order: the count test, the type guards of that overload's parameters, and
+    the gateway call with that overload's id (id0 + position)"""
+    if k <= 0:
+        return ''
+    return (ml_function_branches(module_name, overloads, k - 1, id0)
+            + ('      if' if k == 1 else '      elseif') + ' length(varargin) == '
+            + ('0\n' if len(overloads[k - 1].args.args_list) == 0
+               else int_str(len(overloads[k - 1].args.args_list))
+               + ml_guards(overloads[k - 1].args.args_list, len(overloads[k - 1].args.args_list), True) + '\n')
+            + textwrap.indent(varargout_text(overloads[k - 1].return_type, ml_return_spelling(overloads[k - 1].return_type, True, '.'))
+                              + module_name + '_wrapper(' + int_str(id0 + k - 1) + ', varargin{:});\n', prefix='        '))
+
+
+@spec()
+def ml_t2_plain(t2):
+    return wf_tn_plain(t2.typename) if isinstance(t2, Type) else True
+
+
+@spec()
+def ml_ret_plain(r):
+    """the type names of a return type are plain (strings all the way down)"""
+    return wf_tn_plain(r.type1.typename) and ml_t2_plain(r.type2)
